@@ -54,6 +54,9 @@ struct C03 : Scenario {
         c.outstep = 1; c.saveps = r.chance(0.5) ? 0 : 5;
         c.clamp = false;
         c.padding = 2;
+        if (r.chance(0.2)) c.fs = std::round(r.uniform(2e4, 8e4));
+        if (r.chance(0.2)) c.H = (double)r.pick(std::vector<long>{100, 184, 30});
+        if (r.chance(0.15)) { c.steps_per_rev = (double)c.steps * derive(c).fs / derive(c).f_rev; }   // the same number of steps per period, given per revolution
         c.rotations = (c.steps + 1 - 0.5) / (double)c.steps;
         Blob b;
         double delta = c.pssize / (c.grid - 1);
